@@ -28,6 +28,8 @@ class StateVectorEvolution(MatrixData, BasisManaged):
                                  dtype=numpy.complex128)
         self.dim = psii.data.shape[0]
         self.data[0,:] = psii.data
+        # propagators which work in the rotating frame set this to True
+        self.is_in_rwa = False
 
 
     def convert_from_RWA(self, ham, sgn=1):
@@ -130,7 +132,9 @@ class StateVectorEvolution(MatrixData, BasisManaged):
         
         """
         
-        rhot = DensityMatrixEvolution(timeaxis=self.TimeAxis)
+        # the products of amplitudes are in the same frame as the amplitudes
+        rhot = DensityMatrixEvolution(timeaxis=self.TimeAxis,
+                                      is_in_rwa=self.is_in_rwa)
         
         rhoi = DensityMatrix(dim=self.dim)
         for ii in range(self.dim):
